@@ -300,7 +300,12 @@ def kind_table(ctx, fb, md, mds):
                     why = ("a literal datum pattern must match only an equal datum: the verdict is %s and %s" % (
                         "the constant %s" % res if isinstance(res, bool) else res,
                         "no comparison of the two payloads is made" if not eqs else "the comparison does not read both payloads"))
-                if not ok:
+                if not ok and want == "stream" and kind == "stuck" and mds.name not in cnames:
+                    # the walk stopped at a test on unknown values before any element was looked at (a length pre-check, say): no
+                    # verdict from this row — what the matcher answers on such uses is decided by the C04-expansion tables
+                    ctx.undecided("C04-kind-table", key, "%s pattern against %s datum: a test on the unknown elements comes before the "
+                                  "element-wise match (calls %s)" % (pn, dn, [c.rsplit('::', 1)[-1] for c in cnames if c][:4]), where_of(md))
+                elif not ok:
                     ctx.report("C04-kind-table", key, why, where_of(md))
     ctx.floor("C04-kind-table", 24)
 
